@@ -163,6 +163,28 @@ def gen(tier, rng, shard, nshards):
                 g = general_leaf(rng, n_, dts)
                 g["eigs"] = [{"re": float((complex(e["re"], e["im"]) / cc).real), "im": float((complex(e["re"], e["im"]) / cc).imag)} for e in g["eigs"]]
                 node = {"k": "Scaled", "c": {"re": cc.real, "im": cc.imag}, "side": S.pick(rng, ["l", "r"]), "arg": g}
+        gramprod = (not directed) and (not indefinite) and (not scaled) and rng.random() < 0.07
+        if gramprod:
+            # a product that merely *starts* (or ends) with a Gram pair X^T X of one matrix-free / composite operator object and is
+            # not symmetric: X^T X D with D diagonal positive (similar to D^1/2 X^T X D^1/2: real positive spectrum, well-conditioned
+            # eigenvectors), (X^T X)(Y^T Y).  The automatic choice reads the annotations of the whole product.
+            hermitian = False
+            dts = dt if dt != "f4" else "f8"
+            n_ = int(rng.integers(2, 6))
+            def X_():
+                x = {"k": S.pick(rng, ["Generic", "Generic", "Dense"]), "shape": [n_ + int(rng.integers(0, 3)), n_], "dt": dts, "seed": S.seed(rng), "gen": "svals",
+                     "svals": [float(t) for t in np.linspace(1.0, 1.6, n_)]}
+                return {"k": "Sum", "via": "ctor", "args": [x, dict(x, seed=S.seed(rng))]} if rng.random() < 0.3 else x
+            Dn = {"k": "Diagonal", "n": n_, "dt": dts, "vals": [float(t) for t in rng.choice([0.5, 1.0, 1.5, 2.0], size=n_)]}
+            form = S.pick(rng, ["TA", "HA"]) if dts in P.CPLX else S.pick(rng, ["TA", "HA"])
+            if dts in P.CPLX:
+                form = "HA"  # (X^T X is not Hermitian for complex X)
+            if rng.random() < 0.7:
+                node = {"k": "Gram", "form": form, "same": True, "via": S.pick(rng, ["fn", "ctor"]), "arg": X_(), "tail": [Dn]}
+            else:
+                node = {"k": "Product", "via": "fn", "args": [{"k": "Gram", "form": form, "same": True, "via": "fn", "arg": X_()},
+                                                               {"k": "Gram", "form": form, "same": True, "via": "fn", "arg": X_()}]}
+            fn = S.pick(rng, ["exp", "log", "sqrt", "isqrt", "pow", "apply_unary"])
         n = R.shape_of(node)[0]
         if hermitian:
             alg = S.pick(rng, ["omitted", "Auto", "Eigh", "Eig", "Lanczos", "Lanczos", "Arnoldi"])
@@ -174,6 +196,8 @@ def gen(tier, rng, shard, nshards):
                 alg = S.pick(rng, ["Arnoldi", "Arnoldi", "Lanczos"])
         else:
             alg = S.pick(rng, ["omitted", "Auto", "Eig", "Eig", "Arnoldi", "Arnoldi"])
+            if gramprod:
+                alg = S.pick(rng, ["omitted", "Auto", "omitted", "Auto", "Eig", "Arnoldi"])
         iters = S.pick(rng, ["n", "n+3", "default"])
         case = {"spec": node, "fn": fn, "alg": alg, "iters": iters, "cols": int(S.pick(rng, [0, 1, 3, -1])), "seed": S.seed(rng),
                 "hermitian": hermitian}
